@@ -122,7 +122,15 @@ def run_case(ctx, res, p):
                 res.oracle_fail(f"missing noise specification raised {impl_status} instead of ValueError", p,
                                 signature="C01:refusal-class")
         else:
-            res.oracle_fail(f"building the predictor raised {impl_status}", p, signature="C01:build-raises")
+            # a factorisation may legitimately refuse a matrix that is not numerically positive definite (e.g. a nearly
+            # singular kernel matrix plus a low-rank noise factor): `full_accepts_posdef` only promises acceptance of PD input
+            legit = False
+            if impl_status == "ValueError" and Nmat is not None and Lgiven is None:
+                ev = np.linalg.eigvalsh(Kbb + Nmat)
+                legit = bool(ev[0] <= 1e4 * EPS * max(ev[-1], 1e-300))
+                res.count("impl_refused:not-numerically-PD=%s" % legit)
+            if not legit:
+                res.oracle_fail(f"building the predictor raised {impl_status}", p, signature="C01:build-raises")
         if mod is not None and not mod["status"].startswith(impl_status.split(":")[0]):
             res.corr_fail(f"refusal differs: impl {impl_status}, model {mod['status']}", p)
         return
